@@ -546,3 +546,54 @@ Proof.
   - intros its f g _ _ _. exact I.
   - intros a b Ha Hb. apply (control_cmp_invariant c a b (Hfa a Ha) (Hfa b Hb)).
 Qed.
+
+(* ---------------------------------------------------------------- (3) idempotence with any formatter: what it takes *)
+(* The formatter absorbs the re-layout ON THIS DOCUMENT: on every field, its output does not start
+   with a blank or a line break, and it gives the same output when that output comes back with
+   blanks / line breaks in front (all the re-layout of a value adds).  Weaker than [absorbing]: a
+   formatter may treat fields of different names differently (format_field does). *)
+Definition absorbs_on (g : str -> str -> str) (l : ldocl) : Prop :=
+  forall its f, In (LPara its) l -> In (IField f) its ->
+    let o := g (f_name f) (field_input f) in
+    (forall lead, forallb lead_char lead = true -> g (f_name f) (lead ++ o) = o) /\
+    match o with [] => True | ch :: _ => lead_char ch = false end.
+
+Theorem absorbs_on_idem_proof c psort pcmp esort ecmp g d :
+  ind_ok c = true -> pcmp_agrees psort pcmp -> ecmp_agrees esort ecmp -> wf_doc d = true ->
+  doc_shaped (Some g) (lift d) -> absorbs_on g (lift d) ->
+  pair_cmp_consistent ecmp -> para_cmp_consistent pcmp ->
+  ecmp_invariant_on ecmp (Some g) (lift d) -> pcmp_invariant_on pcmp ecmp (Some g) (lift d) ->
+  let l1 := a_ws_doc pcmp (a_ws_items c ecmp (Some g)) (lift d) in
+  std_ws fixed c psort esort (Some (pure_fmt g)) (ltree_of l1) = Ok (ltree_of l1).
+Proof.
+  intros Hind Hp He Hwf Hsh Ha Hce Hcp Hie Hip.
+  assert (Hl : lwf (lift d) = true) by (apply lwf_lift; exact Hwf).
+  pose proof (lwf_fields_ok (Some g) (lift d) Hl Hsh) as Hok.
+  apply formatter_idem_proof; try assumption.
+  intros its f Hi Hf. destruct (Hok its f Hi Hf) as (_ & Hc & _). destruct (Ha its f Hi Hf) as [A1 A2].
+  apply absorbing_stable_local; [exact A1|exact A2|exact Hc|apply (Hsh its f Hi Hf)].
+Qed.
+
+(* ... and it does take something: a formatter that appends "!" is shaped, and every application
+   appends another one *)
+Module WF.
+  Import Coq.Strings.String.
+  Local Open Scope string_scope.
+  Definition bang (k v : str) : str := (v ++ Lit.s2l "!")%list.
+  Definition d_bang : doc := [BPara (mk_field (Lit.s2l "A") (Lit.s2l " ") (Lit.s2l "b") [] true) []].
+  Definition c2 : wcfg := mk_wcfg (Spaces 2) false None.
+  Definition once : str := Lit.s2l "A: b!
+".
+  Definition twice : str := Lit.s2l "A: b!!
+".
+End WF.
+Lemma bang_not_idempotent :
+  doc_shaped (Some WF.bang) (lift WF.d_bang) /\
+  exists t1 t2, std_ws fixed WF.c2 None None (Some (pure_fmt WF.bang)) (tree_of WF.d_bang) = Ok t1 /\ text t1 = WF.once /\
+                std_ws fixed WF.c2 None None (Some (pure_fmt WF.bang)) t1 = Ok t2 /\ text t2 = WF.twice.
+Proof.
+  split.
+  - intros its f Hin Hf. cbn in Hin. destruct Hin as [E|[]]. injection E as <-. cbn in Hf. destruct Hf as [E|[]]. injection E as <-.
+    vm_compute. reflexivity.
+  - eexists. eexists. split; [vm_compute; reflexivity|]. split; [vm_compute; reflexivity|]. split; vm_compute; reflexivity.
+Qed.
